@@ -149,6 +149,11 @@ fn translate_block(
         // slot, return. We always want to have enough bytes to handle a delay
         // slot.
         if offset >= bytes.len() {
+            // a branch whose delay slot is not in the given bytes cannot be
+            // translated
+            if !matches!(branch_delay, TranslateBranchDelay::None) {
+                return Err("Not enough bytes to translate a branch delay slot".into());
+            }
             successors.push((address + offset as u64, None));
             break;
         }
@@ -472,6 +477,14 @@ fn translate_block(
                 | capstone::mips_insn::MIPS_INS_JAL
                 | capstone::mips_insn::MIPS_INS_JALR
                 | capstone::mips_insn::MIPS_INS_JR => {
+                    // a branch in a branch delay slot is unpredictable
+                    if !matches!(branch_delay, TranslateBranchDelay::None) {
+                        return Err(format!(
+                            "Branch in a branch delay slot at 0x{:x}",
+                            instruction.address
+                        )
+                        .into());
+                    }
                     if bytes.len() == DEFAULT_TRANSLATION_BLOCK_BYTES && offset + 8 >= bytes.len() {
                         successors.push((address + offset as u64, None));
                         break;
